@@ -43,3 +43,5 @@ class SyncProducer:
         """Stop periodic transmission of SYNC message."""
         if self._task is not None:
             self._task.stop()
+            # Forget the task, some interfaces refuse to stop it twice
+            self._task = None
